@@ -28,14 +28,14 @@ def run(ctx):
         ctx.tlc_mc(fam, "QueueWake", "QueueWake_MC_live_big.cfg", workers=16, timeout=3000, heap="16g")
         ctx.tlc_mc(fam, "PriWake", "PriWake_MC_big.cfg", workers=16, timeout=3000)
     pdir, plans = ctx.tlc_plans(fam, "QueueWake_Gen", "QueueWake_Gen.cfg", num=ctx.q(120, 1800), depth=18)
-    ppdir, pplans = ctx.tlc_plans(fam, "PriWake_Gen", "PriWake_Gen.cfg", num=ctx.q(80, 1200), depth=22,
+    ppdir, pplans = ctx.tlc_plans(fam, "PriWake_Gen", "PriWake_Gen.cfg", num=ctx.q(60, 1200), depth=22,
                                   sub="pplans", seed_off=1)
     binary = ctx.go_build("c13")
     ctx.harness(binary, ["-plans", pdir, "-pplans", ppdir, "-out", ctx.path("wake.ndjson"),
                          "-pout", ctx.path("priwake.ndjson"), "-stress", ctx.path("stress.ndjson"),
                          "-pstress", ctx.path("pstress.ndjson"), "-seed", ctx.seed,
                          "-rand", ctx.q(60, 700), "-prand", ctx.q(35, 500), "-nstress", ctx.q(4, 100),
-                         "-race", ctx.q(560, 1600), "-rounds", "enter,ctl,prod,enter,take,enter,ctl,prod,enter", "-prace", ctx.q(70, 1000), "-npstress", ctx.q(60, 600)],
+                         "-race", ctx.q(520, 1600), "-rounds", "enter,ctl,prod,enter,ctl,take,enter,ctl,prod,feed", "-prace", ctx.q(60, 1000), "-npstress", ctx.q(60, 600)],
                 traces=[ctx.path("wake.ndjson"), ctx.path("priwake.ndjson"), ctx.path("stress.ndjson"),
                         ctx.path("pstress.ndjson")])
     wake = _load(ctx, "wake.ndjson")
